@@ -293,6 +293,23 @@ def center_case(chk, env, rng, kind, d, ns, n_ind, lines, pending, forced=None, 
             suff = model.compute_sufficient_statistics(B)
             after = snapshot(env, B, kind, ns)
             untouched = snapshot(env, state, kind, ns)
+            # two states given the very same tensor of individual log-accelerations (a State stores what it is given): re-centring
+            # one of them must leave every value of the other one - trajectories, attachments, event terms - as it was
+            shared_xi = state["xi"].clone().contiguous()
+            shared_copy = shared_xi.clone()
+            T = state.clone(disable_auto_fork=True)
+            U = state.clone(disable_auto_fork=True)
+            T["xi"] = shared_xi
+            U["xi"] = shared_xi
+            twin_before = snapshot(env, U, kind, ns)
+            if rng.random() < 0.5:
+                type(model)._center_xi_realizations(T)
+            else:
+                model.compute_sufficient_statistics(T)
+            U2 = U.clone(disable_auto_fork=True)       # what a later re-centring of the other state would start from
+            U2["xi"] = U["xi"]
+            twin_after = snapshot(env, U2, kind, ns)
+            twin_tensor_same = bool(torch.equal(shared_xi, shared_copy))
             # centring twice; centring after a gauge shift by c
             A2 = A.clone(disable_auto_fork=True)
             type(model)._center_xi_realizations(A2)
@@ -338,6 +355,15 @@ def center_case(chk, env, rng, kind, d, ns, n_ind, lines, pending, forced=None, 
         if not torch.equal(before[k], untouched[k]):
             fails.append(f"centring a clone changed '{k}' of the original state")
             break
+    for k in twin_before:
+        if not same_values(twin_before[k], twin_after[k]):
+            fails.append(f"re-centring one state changed '{k}' of ANOTHER state that had been given the same tensor of individual log-accelerations "
+                         f"(max difference {float((twin_before[k].double() - twin_after[k].double()).abs().max()):.3g}; mean(xi) = {m_true:.3g})")
+            break
+    else:
+        if not twin_tensor_same:
+            fails.append(f"re-centring rewrote in place the tensor of individual log-accelerations the caller had handed to the state "
+                         f"(max change {float((shared_xi - shared_copy).abs().max()):.3g})")
     # 1. mean zero
     xmax = float(xi0.abs().max())
     mean_after = float(after["xi"].mean())
